@@ -14,8 +14,14 @@ for sid in sorted(os.listdir(os.path.join(VERIF, 'seeded'))):
         nf = any('no-failing-input-found' in l for l in v.get('lines', []))
         sig.append(f"{p}: exit {v['exit']}" + (f" ({', '.join(kinds)}{'; no failing input' if nf else ''})" if kinds else ''))
     rows.append((sid, m['property'], ' '.join(m.get('files', [])), m['summary'].replace('|', '/').replace('\n', ' ')[:260],
-                 'caught' if r.get('caught') else ('MISSED' if r else 'not run'), '; '.join(sig)))
-out = ['| id | property | files | change | verdict | signals |', '|---|---|---|---|---|---|']
+                 ('OBSOLETE (no longer a defect) — ' if m.get('obsolete') else '') + ('caught' if r.get('caught') else ('MISSED' if r else 'not run'))
+                 + ('' if r.get('valid') is None or m.get('obsolete') else (', validated' if r.get('valid') else ', NOT VALID'))
+                 + (', rebased' if m.get('rebased_onto') else ''), '; '.join(sig)))
+hdr = ('# Seeded changes (`tools/seedtest.py`; rounds 1–5: `Cnn-m*`, `-r2m*`, `-r3m*`, `-r4m*`, `-r5m*`)\n\n'
+       'validated = the 146 existing tests pass with the change, the author\'s demonstration exits 1 with it and 0 without it (re-run on the current /repo HEAD).\n'
+       'caught = the property\'s quick check exits 1 with a VIOLATION line; "no failing input" marks a structural-only report. rebased = the patch was ported by\n'
+       'hand after a `fix:` commit changed its context (original kept as `patch.orig.diff`).\n\n')
+out = [hdr + '| id | property | files | change | verdict | signals |', '|---|---|---|---|---|---|']
 out += ['| ' + ' | '.join(x) + ' |' for x in rows]
 open(os.path.join(VERIF, 'notes', 'seeded_table.md'), 'w').write('\n'.join(out) + '\n')
-print(len(rows), 'rows;', sum(1 for x in rows if x[4] == 'caught'), 'caught')
+print(len(rows), 'rows;', sum(1 for x in rows if 'caught' in x[4] and 'OBSOLETE' not in x[4]), 'caught;', sum(1 for x in rows if 'no failing input' in x[5]), 'structural only')
